@@ -79,3 +79,18 @@ pub fn char_class(c: char) -> String {
         _ => "ASTRAL".into(),
     }
 }
+
+/// Intern a name as &'static str (bounded: names come from a small set).
+pub fn intern(s: &str) -> &'static str {
+    use std::collections::HashSet;
+    use std::sync::Mutex;
+    static TABLE: Mutex<Option<HashSet<&'static str>>> = Mutex::new(None);
+    let mut g = TABLE.lock().unwrap();
+    let t = g.get_or_insert_with(HashSet::new);
+    if let Some(x) = t.get(s) {
+        return x;
+    }
+    let l: &'static str = Box::leak(s.to_string().into_boxed_str());
+    t.insert(l);
+    l
+}
